@@ -128,6 +128,7 @@ type Request struct {
 	DNS             map[string]DNSScript      `json:"dns,omitempty"`
 	DNSDefault      DNSScript                 `json:"dns_default"`
 	CancelAtUs      int64                     `json:"cancel_at_us,omitempty"`
+	CancelDL        bool                      `json:"cancel_deadline,omitempty"` // see Scenario.CancelDL
 	EchoBase        uint32                    `json:"echo_base,omitempty"`
 	PktIDBase       uint32                    `json:"pktid_base,omitempty"`
 	Noise           []NoiseItem               `json:"noise,omitempty"`
@@ -284,19 +285,19 @@ func RunRequest(t *testing.T, rq *Request) *ReqOutcome {
 			ctx, cancel := context.WithCancel(context.Background())
 			defer cancel()
 			if rq.CancelAtUs > 0 {
-				go func() {
-					select {
-					case <-time.After(us(rq.CancelAtUs)):
-						cancel()
-					case <-ctx.Done():
-					}
-				}()
+				ctx = endingAt(ctx, cancel, us(rq.CancelAtUs), rq.CancelDL)
 			}
 			var fx publicip.Fetcher = fetcher
 			if rq.Providers != nil || rq.ProviderDefault != nil {
 				rt := newScriptedRT(rq.Providers, rq.ProviderDefault)
 				out.RT = rt
 				fx = publicip.NewPublicIPFetcherWithClient(&http.Client{Transport: rt})
+			}
+			if rq.Fetcher == "plain-cached" {
+				// the fetcher exactly as the plain constructor makes it (as NewTraceroute and the server do), with the
+				// public IP already in the cache so that nothing is ever asked of the network
+				cache.Cache.Set("source_public_ip", []byte(net.ParseIP("198.51.100.200").To4()), time.Hour)
+				fx = publicip.NewPublicIPFetcher()
 			}
 			tr := traceroute.NewTracerouteWithFetcher(fx)
 			out.GorBefore = bubbleGoroutines()
